@@ -9,11 +9,20 @@ import PysamlModel.Model.Request
 namespace Request
 variable {α κ : Type} [DecidableEq α] [DecidableEq κ]
 
-/-- The message carries an enveloped signature that is intact and was made with a key the
-    metadata binds to the claimed issuer for signing. -/
-def envelopedValid (md : List (Cert κ)) : Enveloped κ → Bool
+/-- The message carries an enveloped signature that verifies *over the request element that is
+    processed* and was made with a key the metadata binds to the claimed issuer for signing. -/
+def envelopedValid (md : List (Cert κ)) (m : Msg α κ) : Bool :=
+  match m.enveloped with
   | .absent => false
-  | .signed k i => i && md.any (fun c => decide (c.key = k))
+  | .signed k _ => m.covers && md.any (fun c => decide (c.key = k))
+
+/-- What the abstraction assumes of XML signatures (C02's subject, a hypothesis here): a signature
+    that meets the profile (one Reference to the enclosing element, enveloped transform, no
+    ds:Object, …) and that xmlsec verifies, verifies over the enclosing element. -/
+def coherent (m : Msg α κ) : Bool :=
+  match m.enveloped with
+  | .absent => true
+  | .signed _ i => !(m.profileOk && i) || m.covers
 
 def envelopedPresent : Enveloped κ → Bool
   | .absent => false
@@ -38,10 +47,10 @@ def sigClause (cfg : Cfg α) (md : List (Cert κ)) (m : Msg α κ) : Bool :=
   (if requiresSigned cfg then
      if m.binding = .redirect then detachedValid md m
      else if cfg.certOnly then envelopedPresent m.enveloped
-     else envelopedValid md m.enveloped
+     else envelopedValid md m
    else true) &&
   (if cfg.certOnly then true
-   else !envelopedPresent m.enveloped || envelopedValid md m.enveloped)
+   else !envelopedPresent m.enveloped || envelopedValid md m)
 
 /-- Every URL the receiver configured for the service with this binding or with no binding at all,
     in its own context and (identity provider) in the aa / aq / pdp contexts. -/
